@@ -61,7 +61,10 @@ func (m Meta) MarshalYAML() (any, error) {
 // same string: a block scalar, which yaml.v3 chooses for a text with line
 // breaks, cannot carry a leading line break or tab, and a plain "<<" reads
 // back as a merge key - those are written double-quoted.
-func metaScalar(s string) (*yaml.Node, error) {
+func metaScalar(s string) (*yaml.Node, error) { return TextScalar(s) }
+
+// TextScalar is the node of a free text that reads back as the same string.
+func TextScalar(s string) (*yaml.Node, error) {
 	quoted := &yaml.Node{Kind: yaml.ScalarNode, Tag: "!!str", Value: s, Style: yaml.DoubleQuotedStyle}
 	if strings.Contains(s, "\n") {
 		return quoted, nil
